@@ -855,7 +855,8 @@ impl FiBytes for String {
 }
 
 fn fi_typed<T: FiBytes>(ctx: &mut Ctx, rng: &mut Rng) {
-    let size = 1usize << rng.range(3, 9);
+    // any power of two is a valid maximum map size (sizes below 8 are raised to 8 by the library)
+    let size = 1usize << rng.range(0, 9);
     let mut sk: FrequentItemsSketch<T> = FrequentItemsSketch::new(size);
     let salt = rng.next_u64();
     let domain = rng.range(1, 600);
